@@ -2,46 +2,15 @@ import NixModel.Lemmas.C04Unlink
 import NixModel.Lemmas.StoreWF
 
 /-!
-# C04 — soundness of the id collection; the frame when ids are pairwise distinct
+# C04 — the frame of a deletion
 
-`subtreeIds` collects only ids of entities at or below the start (`bfsIds_sound`). When no two
-objects of the file share an `entity_id` — true of every file built by a history without
-id-keeping copies (`Nix.Store.Lemmas.WF.ids_distinct`) — `delete_all` therefore removes links to
-the deleted entity / its subtree *only*.
+`subtreeKeys` collects only entities at or below the start (`bfsKeys_sound`, `Lemmas/C04Bfs`), and
+`delete_all` removes links by target *object*: it therefore removes links to the deleted entity / its
+subtree *only* — on every graph, in particular when other objects (id-keeping copies) carry the same
+`entity_id`.
 -/
 namespace Nix.Store.C04
 open Nix.Store Nix.Store.Graph
-
-theorem bfsIds_sound (g : Graph) (sub : String) (fuel : Nat) (queue : List Nat) (acc : List String)
-    (i : String) (h : i ∈ bfsIds g sub fuel queue acc) :
-    i ∈ acc ∨ ∃ q ∈ queue, ∃ d, Desc g sub q d ∧ g.entityId d = some i := by
-  induction fuel generalizing queue acc with
-  | zero => left; simpa [bfsIds] using h
-  | succ fuel ih =>
-    cases queue with
-    | nil => left; simpa [bfsIds] using h
-    | cons k queue =>
-      rw [bfsIds_step] at h
-      rcases ih _ _ h with hacc | ⟨q, hq, d, hd, hi⟩
-      · cases hk : g.entityId k with
-        | none => left; simpa [hk] using hacc
-        | some j =>
-          simp only [hk, List.mem_append, List.mem_singleton] at hacc
-          rcases hacc with hacc | hij
-          · left; exact hacc
-          · right; exact ⟨k, by simp, k, .refl k, by rw [hk, hij]⟩
-      · right
-        rcases List.mem_append.mp hq with hq | hq
-        · exact ⟨q, List.mem_cons_of_mem _ hq, d, hd, hi⟩
-        · exact ⟨k, by simp, d, .step hq hd, hi⟩
-
-theorem subtreeIds_sound (g : Graph) (sub : String) (k : Nat) (i : String) (h : i ∈ subtreeIds g sub k) :
-    ∃ d, Desc g sub k d ∧ g.entityId d = some i := by
-  rcases bfsIds_sound g sub _ [k] [] i h with h | ⟨q, hq, d, hd, hi⟩
-  · cases h
-  · simp only [List.mem_singleton] at hq
-    subst hq
-    exact ⟨d, hd, hi⟩
 
 /-- `d` is the entity `k` addressed by a `del c[key]`, or — for section / source containers — lies
 in the subtree below it -/
@@ -55,45 +24,36 @@ theorem inSub_self (g : Graph) (c : Cont) (k : Nat) : InSub g c k k := by
   unfold InSub
   cases c.info.flavour <;> first | exact .refl k | rfl
 
-theorem delIds_sound (g : Graph) (c : Cont) (k : Nat) (i : String) (h : i ∈ delIds g c k) :
-    ∃ d, InSub g c k d ∧ g.entityId d = some i := by
-  unfold delIds at h
+/-- the objects handed to `delete_all` are the entity / lie in its subtree … -/
+theorem delKeys_sound (g : Graph) (c : Cont) (k d : Nat) (h : d ∈ delKeys g c k) : InSub g c k d := by
+  unfold delKeys at h
   unfold InSub
   cases hf : c.info.flavour <;> simp only [hf] at h ⊢
-  case sections => exact subtreeIds_sound g _ k i h
+  case sections => exact subtreeKeys_sound g _ k d h
   case sources =>
     rcases List.mem_append.mp h with h | h
-    · exact subtreeIds_sound g _ k i h
-    · cases hk : g.entityId k with
-      | none => simp [hk] at h
-      | some j =>
-        simp only [hk, List.mem_singleton] at h
-        exact ⟨k, .refl k, by rw [hk, h]⟩
+    · exact subtreeKeys_sound g _ k d h
+    · simp only [List.mem_singleton] at h
+      subst h; exact .refl _
   all_goals
-    cases hk : g.entityId k with
-    | none => simp [hk] at h
-    | some j =>
-      simp only [hk, List.mem_singleton] at h
-      exact ⟨k, rfl, by rw [hk, h]⟩
+    simpa using h
 
-/-- **frame under distinct ids**: a link whose target is not the deleted entity (nor, for sections /
-sources, in its subtree) survives `delete_all` of the collected ids -/
-theorem frame_distinct (g : Graph) (c : Cont) (k : Nat)
-    (hdist : ∀ a b i, g.entityId a = some i → g.entityId b = some i → a = b)
+/-- … and the entity itself is always among them -/
+theorem delKeys_self (g : Graph) (c : Cont) (k : Nat) : k ∈ delKeys g c k := by
+  unfold delKeys
+  cases c.info.flavour <;> simp [subtreeKeys_self g _ k]
+
+/-- **frame**: a link whose target is not the deleted entity (nor, for sections / sources, in its
+subtree) survives `delete_all` of the collected objects — on every graph, whatever ids its objects
+carry -/
+theorem frame_keys (g : Graph) (c : Cont) (k : Nat)
     (p : Nat) (l : String × Nat) (hl : l ∈ g.links p) (hnot : ¬ InSub g c k l.2) :
-    l ∈ (g.deleteAll (delIds g c k)).links p := by
-  rw [mem_deleteAll_links]
+    l ∈ (g.deleteObjs (delKeys g c k)).links p := by
+  rw [mem_deleteObjs_links]
   refine ⟨hl, ?_⟩
   unfold doomed
-  cases hi : g.entityId l.2 with
-  | none => rfl
-  | some i =>
-    simp only [List.contains_eq_mem, decide_eq_false_iff_not]
-    intro hin
-    obtain ⟨d, hd, hid⟩ := delIds_sound g c k i hin
-    have := hdist l.2 d i hi hid
-    rw [this] at hnot
-    exact hnot hd
+  simp only [List.contains_eq_mem, decide_eq_false_iff_not]
+  exact fun hin => hnot (delKeys_sound g c k l.2 hin)
 
 /-! ## a sufficient syntactic condition for the uuid4-freshness proviso of `Lemmas/StoreWF` -/
 
